@@ -199,6 +199,21 @@ def corrupt_text(text: str, c: dict) -> str:
     if kind == "torn":
         return text[: int(len(text) * c["frac"])]
     lines = text.split("\n")
+    if kind == "head_lost":
+        # the beginning of the stored document is gone (overwritten / rotated away): what is left starts at some line
+        return "\n".join(lines[c["pos"] % max(1, len(lines)):])
+    if kind in ("block_move", "block_drop"):
+        # a whole top-level section (Engine / InputVariable / OutputVariable / RuleBlock up to the next header) is moved to the
+        # front or the end, or lost: what a merge tool or a hand edit does to such a file
+        heads = [i for i, ln in enumerate(lines) if ln[:1] not in (" ", "\t", "") and ":" in ln]
+        if len(heads) < 2:
+            return text
+        h = c["pos"] % len(heads)
+        a, b = heads[h], (heads[h + 1] if h + 1 < len(heads) else len(lines))
+        block, rest = lines[a:b], lines[:a] + lines[b:]
+        if kind == "block_drop":
+            return "\n".join(rest)
+        return "\n".join(block + rest if c.get("wpos", 0) % 2 == 0 else rest + block)
     if kind in ("line_delete", "line_duplicate", "line_swap"):
         if not lines:
             return text
@@ -334,7 +349,7 @@ class C16(Sim):
     # ---------------------------------------------------------------- generation
     def cases(self, rng, run: int, tier: str) -> Iterator[dict]:
         sp = S.gen_spec(rng, activations=["General"] if rng.random() < 0.6 else S.ACTIVATIONS, fn_reads_output=False, cascade=False,
-                        disabled=0.04, mixed_types=0.0)  # (rows are always processed one at a time here)
+                        disabled=0.04, mixed_types=0.0, user_terms=["InputGain"])  # (rows are always processed one at a time here)
         if rng.random() < 0.12:
             sp = S.example_spec(rng, allow_fn_reads_output=True, randomise_cascade=False) or sp
         if rng.random() < 0.08:
@@ -363,7 +378,7 @@ class C16(Sim):
                     mut = {"listed": rng.choice(LISTED), "seed": rng.randrange(1 << 30)}
                 else:
                     mut = {"generic": rng.choice(GENERIC), "seed": rng.randrange(1 << 30), "times": rng.choice([1, 1, 2])}
-                ops.append({"op": "fresh_rule", "b": bi, "r": ri, "mut": mut, "via": rng.choice(["create", "importer", "importer_block"])})
+                ops.append({"op": "fresh_rule", "b": bi, "r": ri, "mut": mut, "via": rng.choice(["create", "importer", "importer_block", "create", "importer", "importer_block", "create_empty", "importer_block_empty"])})
             elif r < 0.44:
                 ops.append({"op": "rename_check", "b": bi, "r": ri, "pick": rng.randrange(8)})
             elif r < 0.48:
@@ -386,7 +401,7 @@ class C16(Sim):
                 else:
                     for _ in range(rng.choice([1, 1, 1, 2, 3])):
                         kind = rng.choice(["line_delete", "line_duplicate", "line_swap", "tok_delete", "tok_duplicate", "tok_substitute",
-                                           "tok_substitute", "tok_swap", "tok_insert", "tok_insert", "char_flip", "byte_flip"])
+                                           "tok_substitute", "tok_swap", "tok_insert", "tok_insert", "char_flip", "byte_flip", "head_lost", "block_move", "block_drop"])
                         ops.append({"op": "corrupt_store", "c": {"kind": kind, "pos": rng.randrange(256), "wpos": rng.randrange(16),
                                                                  "cpos": rng.randrange(8), "byte": rng.choice([0, 9, 10, 13, 32, 35, 58, 127, 128, 192, 237, 255, rng.randrange(256)]), "word": rng.choice(WORDS + ["true", "false", "none", "Centroid", "General", "Triangle", "term:", "range:", "Engine:", "RuleBlock:", "OutputVariable:", "200", "Minimum", "Automatic", "First", "Highest", "Threshold", "Proportional", ">=", "2", "0.000"])}})
                 ops.append({"op": "import_store"})
@@ -416,8 +431,14 @@ class C16(Sim):
         try:
             E = S.build(sp)
         except Exception as ex:
+            # building the engine loads every generated rule text: a refusal is an outcome, an internal error is C16's business
             st.hit("outcomes.build_failed")
             emit(f"BUILD-FAILED {type(ex).__name__}")
+            if classify(ex) == "internal" and _site(ex) == "?":
+                raise  # not out of the library: a harness problem, reported as such
+            if classify(ex) == "internal":
+                out.violation = Violation("internal_error_on_rule_text", -1, exception=type(ex).__name__, message=str(ex)[:200],
+                                          site=_site(ex), entry="Engine(...) loading the generated rules")
             out.digest, out.log = dig.hex(), log
             return out
         if sp.get("flags", {}).get("example"):
@@ -623,7 +644,12 @@ class C16(Sim):
                 exc = None
                 made = []
                 try:
-                    if op["via"] == "create":
+                    if op["via"] == "create_empty":
+                        # against an engine without any variable every rule names an unknown variable
+                        made = [fl.Rule.create(text, fl.Engine("empty"))]
+                    elif op["via"] == "importer_block_empty":
+                        made = list(fl.FllImporter().rule_block("RuleBlock: x\n  enabled: true\n  rule: " + text, fl.Engine("empty")).rules)
+                    elif op["via"] == "create":
                         made = [fl.Rule.create(text, E)]
                     elif op["via"] == "importer":
                         made = [fl.FllImporter().rule("rule: " + text, E)]
@@ -640,7 +666,10 @@ class C16(Sim):
                 if outcome == "internal":
                     v = Violation("internal_error_on_rule_text", i, exception=type(exc).__name__, message=str(exc)[:160], via=op["via"], text=text)
                 elif outcome == "accepted":
-                    if listed is not None and "#" not in text:
+                    if op["via"].endswith("_empty"):
+                        if "#" not in text:
+                            v = Violation("rule_with_listed_error_accepted", i, error_class="unknown_name (engine without variables)", text=text, via=op["via"])
+                    elif listed is not None and "#" not in text:
                         v = Violation("rule_with_listed_error_accepted", i, error_class=listed, text=text, via=op["via"])
                     else:
                         for r2 in made:
